@@ -4342,6 +4342,9 @@ class ParseCtx:
         if isinstance(self.ast, ActionSourceNode):
             self.start_actions, self.ast = self.ast.adopt_actions_from()
 
+        if self.ast is None:
+            raise IllegalParseTree("Parser body must contain at least one statement that matches input", parser_decl)
+
     def _lookup_named_entity(self, context: Union[MacroArgumentKind, Iterable[MacroArgumentKind]], from_tree: lark.Token):
         assert from_tree.type == "IDENTIFIER"
         name = from_tree.value
